@@ -1,5 +1,10 @@
 """C04 - spherical and Cartesian coordinates always denote the same points, for every
-provenance combination and every order of first access of the coordinate properties."""
+provenance combination and every order of first access of the coordinate properties.
+
+Actions: the 15 coordinate getters, normalize_cartesian_coordinates, construct_face_centers("cartesian
+average"), Grid.chunk().  Not covered: the coordinate property setters (the property is about what a Grid
+reports of its source; a caller who assigns one representation owns the other), and
+construct_face_centers("welzl") (non-deterministic: shuffles with the global RNG)."""
 
 from __future__ import annotations
 
@@ -384,10 +389,11 @@ def run(ctx):
     ctx.exhaustive = True
     ctx.rule = (
         "TLC explores CoordLazy.tla over all 176 sources (provenance of nodes / face centres / edge centres x longitude convention x "
-        "unit or non-unit Cartesian input) and all histories of the 15 coordinate getters and normalize_cartesian_coordinates: under "
+        "unit or non-unit Cartesian input) and all histories of the 15 coordinate getters, normalize_cartesian_coordinates, construct_face_centers and chunk: under "
         "MechIntended every clause is an invariant; under MechObserved (transcribed from the code) it marks the failing states and dumps the "
-        "labelled graph.  Every (state, action) edge of that graph is replayed at least once on real grids built from catalogue meshes "
-        "through from_topology / from_face_vertices / open_grid(UGRID) / from_dataset; after each call every coordinate variable in Grid._ds "
+        "labelled graph.  Every (state, action) edge of that graph (quick: modulo the longitude convention of the source) is replayed at least "
+        "once on real grids built from catalogue, polar-cap and cubed-sphere meshes through from_topology / from_face_vertices / "
+        "open_grid(UGRID) / from_dataset and SCRIP / ESMF / MPAS sources, a third of them chunked from the start; after each call every coordinate variable in Grid._ds "
         "is given a frame tag numerically against the lattice and TLC (TraceCoord.tla) validates the trace.  Non-trivial = replayed step "
         "whose model transition changes the store, per mesh."
     )
@@ -400,4 +406,6 @@ def run(ctx):
         "a latitude may carry the rounding of z divided by cos(lat): tolerance max(1e-12, 16 ulp / cos lat); an element with 1 - |z| < 1e-8 (within 0.0081 degrees of a pole) may read as that pole",
         "polar-cap meshes with K > 573 are covered by the scaled twin K = 1 (sign-preserving linear map), not evaluated by TLC directly",
         "TLC's evaluator and the CommunityModules Json reader",
+        "SCRIP / ESMF / MPAS sources: stored tables from Dialects.tla, materialised by harness/x_c01.py; nodes of these grids are matched to lattice directions by position (1e-9 rad)",
+        "dask runs with the synchronous scheduler; the coordinate setters and construct_face_centers('welzl') are out of scope",
     ]
